@@ -15,7 +15,7 @@ RULE = ('generated class models (typed signatures, hierarchies, enums, string-li
         'adversarially, and the empty document; every value a real load returns is checked against an '
         'independent conformance oracle all the way down, and against the model.  Non-trivial = the '
         'load succeeds with a value that is not a bare scalar.'
-        'Directed families: tags at values, keys and complex keys inside untyped regions (Any,'
+        ' Directed families: tags at values, keys and complex keys inside untyped regions (Any,'
         ' untyped, _yatiml_extra, List[Any], Dict[str, Any]; merge keys there), attributes given'
         ' twice / in both spellings / dashed with a wrong-kind or tagged value / with odd key'
         ' names, string-like dict keys with node-rewriting hooks, anchors reused across declared'
